@@ -2,6 +2,6 @@
    unit, list, prod, sumbool, sumor map to OCaml's; N / positive / Z / nat stay
    extracted inductive datatypes. No Extract Constant of ours. *)
 From Coq Require Import Extraction ExtrOcamlBasic.
-From Feox Require Import Model.FreeSpace Model.Bytes Model.Crc32c Model.Codec Model.MetaJournal Model.Recovery Model.Lww Model.Monitor Model.Cache Model.Migration Model.Sched Model.Lin Model.Extent Model.InFlight Model.WriteBehind Model.Sweep Model.Scan Model.AlignedBuf Model.FailPath Model.Gate Model.CacheGen Model.Clock.
+From Feox Require Import Model.FreeSpace Model.Bytes Model.Crc32c Model.Codec Model.MetaJournal Model.Recovery Model.Lww Model.Monitor Model.Cache Model.Migration Model.Sched Model.Lin Model.Extent Model.InFlight Model.WriteBehind Model.Sweep Model.Scan Model.AlignedBuf Model.FailPath Model.Gate Model.CacheGen Model.Clock Model.FailBatches.
 Extraction Language OCaml.
-Separate Extraction FreeSpace Bytes Crc32c Codec MetaJournal Recovery Lww Monitor Cache Migration Sched Lin Extent InFlight WriteBehind Sweep Scan AlignedBuf FailPath Gate CacheGen Clock.
+Separate Extraction FreeSpace Bytes Crc32c Codec MetaJournal Recovery Lww Monitor Cache Migration Sched Lin Extent InFlight WriteBehind Sweep Scan AlignedBuf FailPath Gate CacheGen Clock FailBatches.
